@@ -48,8 +48,23 @@ class G:
     def comment(self):
         m = self.mark()
         k = self.rng.random()
-        if self.silent and k < 0.25:
+        if self.silent and k < 0.14:
             return ["c", f"! keep{m:03d} "]
+        if self.silent and k < 0.28:
+            # preserved comment WITH interpolation
+            return ["c", f"! keep{m:03d} lib v{m:03d} (c) ", f"! keep{m:03d} lib #{{v{m:03d}}} (c) "]
+        if self.silent and k < 0.36:
+            # literal `#`, `#` directly before / after an interpolation
+            j = self.rng.randrange(5)
+            if j == 0:
+                return ["c", f" c{m:03d} issue #12 a#b # "]
+            if j == 1:
+                return ["c", f" c{m:03d} #x{m:03d} ", f" c{m:03d} ##{{x{m:03d}}} "]
+            if j == 2:
+                return ["c", f"! keep{m:03d} ##x{m:03d} ", f"! keep{m:03d} ###{{x{m:03d}}} "]
+            if j == 3:
+                return ["c", f" c{m:03d} y{m:03d}# #", f" c{m:03d} #{{y{m:03d}}}# #"]
+            return ["c", f" c{m:03d} #a-b# ", f" c{m:03d} ##{{a}}-#{{b}}# "]
         if k < 0.5:
             return ["c", f" c{m:03d} "]
         if k < 0.7:
